@@ -18,6 +18,8 @@ import check
 
 GEN = ['tables', 'pdbsym']
 LEAN_MODULES = ['XfabVerif.Proofs.C17']
+# definitions the hand-written model mirrors (see harness/pins.py): a source change breaks the tie
+PINS = ['xfab/structure.py:build_atomlist', 'xfab/structure.py:atomlist', 'xfab/structure.py:atom_entry']
 LEAN_DRIVER_MODULES = ['XfabVerif.Model.CifPdb', 'XfabVerif.Gen.Sg.All', 'XfabVerif.Gen.PdbSymbols']
 AUDIT_FILES = ['XfabVerif/Model/CifPdb.lean']
 DRIVER = 'CifPdbDriver.lean'
